@@ -164,6 +164,11 @@ def check(prog, R, rule, floor=18):
     for acc, why in sorted(MUST_BE_POSITIONAL.items()):
         b = prog.body(AST + acc)
         R.ob(rule, acc + ":positional", acc in have, b.at if b else "", "selects its constituent by position" if acc in have else f"selects by type (support::child::<T>) although {why}")
+    # a reviewed accessor that still exists but no longer selects by position in a way the model derives: its role
+    # table cannot be compared any more (fail closed)
+    for acc in sorted(spec):
+        if AST + acc in prog.bodies and AST + acc not in set(positional_accessors(prog)):
+            R.ob(rule, acc, False, prog.body(AST + acc).at, "this accessor has a reviewed role table but its implementation no longer uses children().next()/nth(k) or the nodes_around_else helper: the constituent it returns cannot be derived; re-review it (tools/gen_positional.py)")
     helper_check(prog, R, rule)
     R.floor("positional accessors with a role table", n, floor)
 
